@@ -45,13 +45,23 @@ from typing import Dict, List, Optional, Set, Tuple
 _KNOWN: Optional[Set[str]] = None
 
 
+_KNOWN_NESTED: Optional[Set[str]] = None
+
+
 def known_names() -> Set[str]:
-    global _KNOWN
+    global _KNOWN, _KNOWN_NESTED
     if _KNOWN is None:
         p = os.path.join(os.path.dirname(os.path.abspath(__file__)), "known_names.json")
         with open(p) as fh:
-            _KNOWN = set(json.load(fh)["private_names"])
+            d = json.load(fh)
+        _KNOWN = set(d["private_names"])
+        _KNOWN_NESTED = set(d.get("nested_names", []))
     return _KNOWN
+
+
+def known_nested_names() -> Set[str]:
+    known_names()
+    return _KNOWN_NESTED or set()
 
 
 def _simple(fn: ast.FunctionDef) -> bool:
@@ -76,6 +86,14 @@ def _simple(fn: ast.FunctionDef) -> bool:
 
 
 _NEW_FUNCS: Dict[str, ast.FunctionDef] = {}      # new private functions of the module being read
+
+
+def _straight_line(fn: ast.FunctionDef) -> bool:
+    """assignments / expression statements and one final return: the shape of a closure that
+    only regroups or renames values.  A closure with branches or loops is a piece of logic of
+    its own and stays a call (rules that know such helpers read them themselves)."""
+    body = [b for b in fn.body if not (isinstance(b, ast.Expr) and isinstance(b.value, ast.Constant))]
+    return all(isinstance(b, (ast.Assign, ast.AnnAssign, ast.AugAssign, ast.Expr, ast.Return)) for b in body)
 
 
 def _memo_like(fn: ast.FunctionDef, _depth: int = 0) -> bool:
@@ -221,6 +239,7 @@ class Inliner:
         self.count = 0
         self.removed: List[str] = []
         self.new_names: Set[str] = set()
+        self._local: Dict[str, ast.FunctionDef] = {}
 
     def _bind(self, fn: ast.FunctionDef, call: ast.Call, method: bool) -> Optional[List[Tuple[str, ast.AST]]]:
         params = [a.arg for a in fn.args.args]
@@ -360,7 +379,11 @@ class Inliner:
             cls_helpers[c.name] = {f.name: f for f in c.body if isinstance(f, ast.FunctionDef)
                                    and new_private(f.name) and _simple(f)
                                    and f.args.args}
-        if not mod_helpers and not any(cls_helpers.values()):
+        nested_known_ = known_nested_names()
+        has_new_closure = any(isinstance(y, ast.FunctionDef) and y is not x and y.name not in nested_known_
+                              for x in ast.walk(tree) if isinstance(x, ast.FunctionDef)
+                              for y in x.body)
+        if not mod_helpers and not any(cls_helpers.values()) and not has_new_closure:
             return tree
         # methods of base classes defined in the same module are visible to subclasses
         bases = {c.name: [dotted_name(b) for b in c.bases] for c in tree.body if isinstance(c, ast.ClassDef)}
@@ -382,6 +405,8 @@ class Inliner:
             if not isinstance(call, ast.Call):
                 return None, False
             f = call.func
+            if isinstance(f, ast.Name) and f.id in self._local:
+                return self._local[f.id], False         # a new closure of the function being read
             if isinstance(f, ast.Name) and f.id in mod_helpers:
                 return mod_helpers[f.id], False
             if isinstance(f, ast.Attribute) and isinstance(f.value, ast.Name) and f.value.id == "self":
@@ -417,7 +442,8 @@ class Inliner:
                         setattr(node, field, [rec(v) if isinstance(v, ast.AST) else v for v in val])
                 if node is not top and isinstance(node, ast.Call):
                     fn, _m = callee_of(node, cname)
-                    if fn is not None and fn is not current:
+                    if fn is not None and fn is not current and _expression_helper(fn) is None:
+                        # (a one-expression helper is substituted where it stands, later)
                         self.k += 1
                         tmp = f"value__t{self.k}"
                         pre.append(ast.copy_location(ast.Assign(
@@ -492,14 +518,38 @@ class Inliner:
                 self.depth -= 1
                 return new
 
+        nested_known = known_nested_names()
+
         def visit_function(fn: ast.FunctionDef, cname: Optional[str]):
+            # closures defined at the top of this function under a name the baseline does not
+            # know: their direct calls in this function are written out like helper calls (the
+            # closure's free variables are this function's own names, nothing to bind)
+            self._local = {}
+            for st in fn.body:
+                if isinstance(st, ast.FunctionDef) and st.name not in nested_known \
+                        and not st.name.startswith("__") and _simple(st) and _straight_line(st):
+                    rebound = sum(1 for x in ast.walk(fn) if isinstance(x, ast.Name) and x.id == st.name
+                                  and isinstance(x.ctx, ast.Store))
+                    if rebound == 0:
+                        self._local[st.name] = st
+                        self.new_names.add(st.name)
             fn.body = block(fn.body, cname, fn, 0)
+            local = dict(self._local)
             for x in fn.body:
                 for y in ast.walk(x):
                     if isinstance(y, ast.FunctionDef):
                         y.body = block(y.body, cname, y, 0)
             sub = Substitute(cname, fn)
-            fn.body = [sub.visit(b) for b in fn.body]
+            fn.body = [b if b in local.values() else sub.visit(b) for b in fn.body]
+            if local:
+                # a closure that is no longer referenced is dropped
+                for name, cl in list(local.items()):
+                    refs = sum(1 for x in ast.walk(fn) if isinstance(x, ast.Name) and x.id == name
+                               and not _inside(cl, x))
+                    if refs == 0 and cl in fn.body:
+                        fn.body.remove(cl)
+                        self.removed.append(name)
+            self._local = {}
         for node in tree.body:
             if isinstance(node, ast.FunctionDef):
                 visit_function(node, None)
